@@ -25,9 +25,9 @@ TRUSTED = ['modelled, not verified: json.loads (the model gets, per case, whethe
            'from the real json.loads; assumed to raise only ValueError or RecursionError); parse_qsl is total (C18) and its '
            'result is not represented; the three regular expressions as hand-derived scanners (texts pinned against Gen.v); '
            'wsgi.input as coq/model/Stream.v; CONTENT_TYPE is a str without lone surrogates (PEP 3333: latin-1)',
-           'CONTENT_LENGTH is taken as an integer: a non-numeric Content-Length header makes int() raise ValueError -> 500 '
-           '(out of the property\'s scope: not a body; reported)']
-ASSUMPTIONS = ['max_memfile_size >= 1', 'wsgi.input.read(n) returns at most n bytes and b"" only at EOF',
+           'int(CONTENT_LENGTH) as lib/PyIntParse.v py_int_dec (exact on latin-1 strings; non-ASCII decimal digits are not '
+           'modelled); Transfer-Encoding through Chunked.te_chunked']
+ASSUMPTIONS = ['CONTENT_LENGTH, when present and non-empty, is accepted by int() (otherwise 500: finding C12-content-length-not-int)', 'max_memfile_size >= 1', 'wsgi.input.read(n) returns at most n bytes and b"" only at EOF',
                'chunked framing is exercised with full reads only (short reads: C05/F5)',
                'DefaultConfig.errors_map as generated into coq/gen/Gen.v (RequestError, BodySizeError, BodyParsingError)']
 
@@ -39,10 +39,31 @@ def cps(s):
     return [ord(c) for c in s]
 
 
-def case(ctype, data, cl='len', chunked=False, sched=None, mem=102400, maxb=None, access='forms'):
+def case(ctype, data, cl='len', chunked=False, sched=None, mem=102400, maxb=None, access='forms', cl_raw=None,
+         te=None):
+    """cl: 'len' | int (-1 = header absent) ; cl_raw: the CONTENT_LENGTH header text verbatim (overrides cl) ;
+    te: the Transfer-Encoding header text (default: 'chunked' when chunked)"""
     data = list(data)
-    return dict(ctype=cps(ctype), data=data, cl=len(data) if cl == 'len' else cl, chunked=chunked,
-                sched=sched or [], mem=mem, maxb=maxb, access=access)
+    if cl_raw is None:
+        n = len(data) if cl == 'len' else cl
+        cl_raw = None if n == -1 else str(n)
+    if te is None:
+        te = 'chunked' if chunked else ''
+    return dict(ctype=cps(ctype), data=data, cl_raw=None if cl_raw is None else cps(cl_raw), te=cps(te),
+                chunked='chunked' in te.lower(), sched=sched or [], mem=mem, maxb=maxb, access=access)
+
+
+def cl_text(case):
+    return None if case['cl_raw'] is None else ''.join(chr(c) for c in case['cl_raw'])
+
+
+def cl_int(case):
+    """int(environ.get('CONTENT_LENGTH') or -1); None when int() raises"""
+    t = cl_text(case)
+    try:
+        return int(t or -1)
+    except ValueError:
+        return None
 
 
 def part(disp, data, extra=b''):
@@ -111,7 +132,21 @@ def corpus():
         case(CT_MP, b'zz\r\n' + wire, cl=-1, chunked=True, mem=64),               # bad size line
         case(CT_MP, wire, cl=-1, chunked=True, mem=2),                            # size line longer than the buffer
         case('application/json', F.chunked(b'{"a": 1}', [3]), cl=-1, chunked=True, mem=64, access='json'),
+        case(CT_MP, wire, cl=7, te='gzip, Chunked', mem=64, access='files'),      # chunked wins over Content-Length
+        case(CT_MP, wire, cl=-1, te='identity', mem=64),                          # not chunked, no length: empty body
     ]
+    # ---- CONTENT_LENGTH spellings int() accepts ...
+    body = ok1 + END
+    for raw in (' %d ' % len(body), '+%d' % len(body), '0%d' % len(body), '%d_0' % (len(body) // 10) if len(body) % 10 == 0
+                else '%d' % len(body), '\xa0%d' % len(body), '', '-5'):
+        out.append(case(CT_MP, body, cl_raw=raw))
+    # ---- ... and rejects: finding C12-content-length-not-int (500)
+    for raw in ('abc', '1e3', '12abc', '1.0', '0x10', '1__0', '\xb2', '--1', ' '):
+        out.append(case(CT_MP, body, cl_raw=raw))
+        out.append(case('application/json', b'{}', cl_raw=raw, access='json'))
+    out.append(case('text/plain', b'x', cl_raw='abc', access='body'))
+    out.append(case(CT_MP, wire, cl_raw='abc', te='chunked', mem=64))            # parsed even when chunked
+    out.append(case('text/plain', b'{}', cl_raw='abc', access='json'))             # body never read: 200
     return out
 
 
@@ -197,6 +232,12 @@ def gen(rng, n):
         if rng.random() < 0.1:
             maxb = rng.choice([0, ln, max(0, ln - 1), ln + 1, ln // 2])
         fr = rng.random()
+        if rng.random() < 0.04:
+            raw = rng.choice(['abc', '1e3', '%dx' % ln, '1.5', '', ' %d' % ln, '+%d' % ln, '-1', '0x1', '%d\n' % ln, '\xa0',
+                              '1_0', '_1', '\xb9'])
+            yield case(ctype, body, cl_raw=raw, mem=mem, maxb=maxb, access=access,
+                       te=rng.choice(['', '', 'chunked']))
+            continue
         if fr < 0.25:
             # chunked framing, full reads; corrupt the encoding sometimes (never for json: the json oracle needs the payload)
             wire = F.chunked(body, [rng.randrange(1, 40) for _ in range(rng.randrange(1, 4))])
@@ -204,7 +245,8 @@ def gen(rng, n):
             if rng.random() < 0.3 and not is_json:
                 wire = mutate(rng, wire)
             cl = -1 if rng.random() < 0.8 else rng.choice([0, ln, len(wire), 3])
-            yield case(ctype, wire, cl=cl, chunked=True, mem=mem, maxb=maxb, access=access)
+            yield case(ctype, wire, cl=cl, mem=mem, maxb=maxb, access=access,
+                       te=rng.choice(['chunked', 'chunked', 'Chunked', 'gzip, chunked', 'CHUNKED ']))
             continue
         q = rng.random()
         cl = ln if q < 0.7 else max(0, ln - rng.randrange(1, 6)) if q < 0.8 else ln + rng.randrange(1, 9) if q < 0.9 \
@@ -232,7 +274,7 @@ def payload_of(case):
     """the bytes the framework will buffer when the framing is intact (used for the json oracle only)"""
     data = bytes(case['data'])
     if not case['chunked']:
-        return data[:max(case['cl'], 0)]
+        return data[:max(cl_int(case) or 0, 0)]
     out, i = b'', 0
     try:
         while True:
@@ -273,10 +315,10 @@ def run_impl(case):
 
     st = FragStream(case['data'], case['sched'])
     env = environ('POST', '/', **{'wsgi.input': st, 'CONTENT_TYPE': ''.join(chr(c) for c in case['ctype'])})
-    if case['cl'] >= 0:
-        env['CONTENT_LENGTH'] = str(case['cl'])
-    if case['chunked']:
-        env['HTTP_TRANSFER_ENCODING'] = 'chunked'
+    if case['cl_raw'] is not None:
+        env['CONTENT_LENGTH'] = cl_text(case)
+    if case['te']:
+        env['HTTP_TRANSFER_ENCODING'] = ''.join(chr(c) for c in case['te'])
     status = []
     out = app(env, lambda s, h, e=None: status.append(s))
     b''.join(out)
@@ -303,7 +345,7 @@ def project(obs, case):
 def encode(case):
     tab = []
     ct = ''.join(chr(c) for c in case['ctype']).lower()
-    if case['access'] != 'body' and ct.split(';')[0].strip() == 'application/json':
+    if case['access'] != 'body' and ct.split(';')[0].strip() == 'application/json' and cl_int(case) is not None:
         p = payload_of(case)
         lim = min(len(p), case['mem'] + 1)
         memo = {}
@@ -315,8 +357,8 @@ def encode(case):
                 k = 0
             tab.append(k)
     acc = ACCESS.index(case['access'])
-    return ([case['mem'], 0 if case['maxb'] is None else 1, case['maxb'] or 0, case['cl'], 1 if case['chunked'] else 0, acc]
-            + enc_str(case['ctype']) + enc_str(case['data']) + enc_list(case['sched'], lambda k: [k])
+    return ([case['mem'], 0 if case['maxb'] is None else 1, case['maxb'] or 0, 0 if case['cl_raw'] is None else 1, acc]
+            + enc_str(case['cl_raw'] or []) + enc_str(case['te']) + enc_str(case['ctype']) + enc_str(case['data']) + enc_list(case['sched'], lambda k: [k])
             + enc_list(tab, lambda k: [k]))
 
 
@@ -339,7 +381,7 @@ def decode(out, case):
         return dict(status=200, value=['mp', post, forms, files])
     if tag == 1:
         return dict(status=r.int())
-    return dict(status=500, fault=r.int())
+    return dict(status=500)          # ServerFault (the fault kind is not observable from outside)
 
 
 # ---------------------------------------------------------------- the property, stated on the implementation
@@ -387,7 +429,12 @@ def oracle(case, obs):
     return None
 
 
-PREDICATES = {}
+def content_length_not_int(case, what, m):
+    """CONTENT_LENGTH present, non-empty and rejected by int()"""
+    return bool(case.get('cl_raw')) and cl_int(case) is None
+
+
+PREDICATES = {'content_length_not_int': content_length_not_int}
 
 
 def ctclass(case):
@@ -417,13 +464,13 @@ def shrink(case):
     step = max(1, n // 8)
     for i in range(0, n, step):
         c = dict(case, data=d[:i] + d[i + step:])
-        if not case['chunked'] and case['cl'] == n:
-            c['cl'] = len(c['data'])
+        if not case['chunked'] and cl_int(case) == n:
+            c['cl_raw'] = cps(str(len(c['data'])))
         yield c
     for i in range(n):
         c = dict(case, data=d[:i] + d[i + 1:])
-        if not case['chunked'] and case['cl'] == n:
-            c['cl'] = len(c['data'])
+        if not case['chunked'] and cl_int(case) == n:
+            c['cl_raw'] = cps(str(len(c['data'])))
         yield c
     if case['sched']:
         yield dict(case, sched=[])
